@@ -105,6 +105,7 @@ def run(chk):
     thorough = chk.tier == "thorough"
     chk.assumptions += ["pages are built with LeafNodeMut::insert_at_end in the model's key order, empty values",
                         "the forced narrowing variants are completed by a copy of find_key_simd's final binary-search phase"]
+    vlib.scratch()          # created before any thread asks for it
     vlib.build_harness(); chk.mark("build")
     gen = _gen(chk, thorough); chk.mark("tlc_gen")
     cases = []
